@@ -332,7 +332,8 @@ def explore(spaces, jobs=16, max_viol=40, log=None, task_timeout=None):
     re-queued on a fresh worker up to two times; a sub-tree that hangs or crashes three times is
     reported as a violation (kind 'hang' / 'crash') - never silently skipped."""
     log = log or (lambda *a: None)
-    task_timeout = task_timeout or float(os.environ.get('BCMC_TASK_TIMEOUT', '420'))
+    task_timeout = float(os.environ.get('BCMC_TASK_TIMEOUT', 0)) or task_timeout or 420.0
+    task_timeout = max([task_timeout] + [float(getattr(sp, 'task_timeout', 0) or 0) for sp in spaces])
     ctx = mp.get_context('fork')
     tasks = ctx.Queue()
     results = ctx.Queue()
